@@ -104,6 +104,7 @@ def persistable(rng):
             out.append(('ACVoltageSource', dict(V=2.0, w=50.0, phi=30.0 if deg else 0.5, name='Q', reverse=rev, deg=deg, sin=sin)))
             out.append(('ACCurrentSource', dict(I=2.0, w=50.0, phi=30.0 if deg else 0.5, name='Q', reverse=rev, deg=deg, sin=sin)))
             out.append(('RectVoltageSource', dict(V=2.0, w=50.0, phi=30.0 if deg else 0.5, name='Q', reverse=rev, deg=deg, sin=sin)))
+            out.append(('RectCurrentSource', dict(I=2.0, w=50.0, phi=30.0 if deg else 0.5, name='Q', reverse=rev, deg=deg, sin=sin)))
     out += [('Resistor', dict(R=47.0, name='Q')), ('Conductance', dict(G=0.02, name='Q')), ('Impedance', dict(Z=3 + 4j, name='Q')),
             ('Capacitor', dict(C=1e-6, name='Q')), ('Inductance', dict(L=2e-3, name='Q'))]
     return out
